@@ -139,7 +139,7 @@ func Modules(t *rapid.T, o ModOpts) *ModuleSet {
 	modNames := []string{"core", "wiki", "team-a", "mod_4", "type"}
 	usedFile := map[string]bool{}
 	for i := 0; i < nFiles; i++ {
-		name := rapid.SampledFrom([]string{"core.fga", "wiki.fga", "team/a.fga", "x y.fga", "b.fga", "dir/sub/c.fga", "é.fga"}).Draw(t, "fileName")
+		name := rapid.SampledFrom([]string{"core.fga", "wiki.fga", "team/a.fga", "x y.fga", "b.fga", "dir/sub/c.fga", "é.fga", "Core.fga", "./core.fga", "CORE.FGA", "team\\a.fga", "Wiki.fga"}).Draw(t, "fileName")
 		for usedFile[name] {
 			name = fmt.Sprintf("f%d-%s", i, name)
 		}
@@ -155,7 +155,7 @@ func Modules(t *rapid.T, o ModOpts) *ModuleSet {
 	var baseNames []string
 	nTypes := rapid.IntRange(1, 5).Draw(t, "nBaseTypes")
 	if scale == "many-types" {
-		nTypes = rapid.SampledFrom([]int{15, 16, 17, 31, 32, 33, 34, 40, 64, 65}).Draw(t, "nBaseTypesBig")
+		nTypes = rapid.SampledFrom([]int{15, 16, 17, 31, 32, 33, 34, 40, 64, 65, 128, 255, 256, 257, 258}).Draw(t, "nBaseTypesBig")
 	}
 	for i := 0; i < nTypes; i++ {
 		tn := c.fresh("t")
@@ -555,6 +555,8 @@ func Modules(t *rapid.T, o ModOpts) *ModuleSet {
 	}
 	if o.CaseNames && rapid.IntRange(0, 3).Draw(t, "caseNames") == 0 {
 		caseVariants(t, ms)
+	} else if o.CaseNames && rapid.IntRange(0, 4).Draw(t, "specialNames") == 0 {
+		specialPair(t, ms)
 	}
 	// render
 	for i := range ms.Files {
@@ -582,7 +584,7 @@ func Modules(t *rapid.T, o ModOpts) *ModuleSet {
 		if f.SyntaxError && f.ManyErrors > 0 {
 			// many separate errors in one file: characters no lexer rule matches (each is reported and dropped), spread over
 			// the lines of the file or gathered at its end
-			junk := rapid.SampledFrom([]string{"$", "@", "\x00", "?", "~"}).Draw(t, "manyErrChar")
+			junk := rapid.SampledFrom([]string{"$", "@", "\x00", "?", "~", "\u00a0", "\u2028", "\v", "\u3000", "\u0085"}).Draw(t, "manyErrChar")
 			if rapid.Bool().Draw(t, "manyErrSpread") {
 				lines := strings.Split(f.Text, "\n")
 				for k := 0; k < f.ManyErrors; k++ {
@@ -594,7 +596,7 @@ func Modules(t *rapid.T, o ModOpts) *ModuleSet {
 				f.Text += "\n" + strings.Repeat(junk, f.ManyErrors) + "\n" // on a line of its own: the last line may end in a comment
 			}
 		} else if f.SyntaxError {
-			f.Text += rapid.SampledFrom([]string{"\ntype\n", "\n  relations\n", "\ndefine x: [user\n", "\ntype a b\n", "\n)\n"}).Draw(t, "syntaxJunk")
+			f.Text += rapid.SampledFrom([]string{"\ntype\n", "\n  relations\n", "\ndefine x: [user\n", "\ntype a b\n", "\n)\n", "\ntype nbsp_at_end\u00a0\n", "\n\u00a0\n", "\n \u2028 \n", "\ntype vt_at_end\v\n"}).Draw(t, "syntaxJunk")
 		}
 	}
 	ms.fillConflictLines()
@@ -938,5 +940,76 @@ func renameModules(ms *ModuleSet, C, R, T func(string) string) {
 		case "duplicate-type-across", "duplicate-type-within", "extend-missing-type":
 			cf.Name = T(cf.Name)
 		}
+	}
+}
+
+// specialPair renames, consistently in every file and in the conflict list, two types, two relations or two conditions
+// to a special name pair (names.go): equal under a 32-bit hash, prefix- or suffix-related, equal in length and first
+// bytes, equal under case folding or a natural comparison of digits.
+func specialPair(t *rapid.T, ms *ModuleSet) {
+	p := DrawNamePair(t)
+	var conds, rels, types []string
+	seen := map[string]bool{}
+	add := func(list *[]string, n string) {
+		if n != "" && !seen[n] {
+			seen[n] = true
+			*list = append(*list, n)
+		}
+	}
+	for _, f := range ms.Files {
+		for _, cd := range f.Model.Conds {
+			add(&conds, cd.Name)
+		}
+		for _, td := range f.Model.Types {
+			add(&types, td.Name)
+			for _, r := range td.Rels {
+				add(&rels, r.Name)
+			}
+		}
+	}
+	if seen[p.A] || seen[p.B] || !singleToken(p.A) || !singleToken(p.B) {
+		return
+	}
+	what := rapid.SampledFrom([]string{"type", "relation", "condition"}).Draw(t, "specialPairTarget")
+	list := types
+	keep := map[string]bool{"user": true, "viewer": true, "parent": true}
+	switch what {
+	case "relation":
+		list = rels
+	case "condition":
+		list = conds
+		if !isPlainIdentifier(p.A) || !isPlainIdentifier(p.B) || reservedCondMode[p.A] || reservedCondMode[p.B] {
+			return
+		}
+	}
+	var cands []string
+	for _, n := range list {
+		if !keep[n] {
+			cands = append(cands, n)
+		}
+	}
+	if len(cands) < 2 {
+		return
+	}
+	i := rapid.IntRange(0, len(cands)-1).Draw(t, "specialPairFirst")
+	j := rapid.IntRange(0, len(cands)-2).Draw(t, "specialPairSecond")
+	if j >= i {
+		j++
+	}
+	ren := map[string]string{cands[i]: p.A, cands[j]: p.B}
+	f := func(s string) string {
+		if n, ok := ren[s]; ok {
+			return n
+		}
+		return s
+	}
+	same := func(s string) string { return s }
+	switch what {
+	case "type":
+		renameModules(ms, same, same, f)
+	case "relation":
+		renameModules(ms, same, f, same)
+	default:
+		renameModules(ms, f, same, same)
 	}
 }
